@@ -86,6 +86,9 @@ def run(prop, tier, seed):
     if prop == 'C16':
         from . import thr
         nthreadtrace = thr.traced_calls(v, seed, tier, what='ok')
+    if prop == 'C08':
+        from . import tracevals
+        ntracevals = tracevals.run(v, prop, traced=False)   # class-type values returned by value / reference: what the caller receives
     bykey = {}
     for x in res.violations:
         cur = bykey.get(x['key'])
